@@ -24,9 +24,14 @@ def verify(src, mid):
     sh(["git", "-C", "/repo", "worktree", "add", "--detach", wt, "HEAD"])
     rec = {}
     try:
-        demo = os.path.join(wt, "pkg/cdi/zz_seeded_demo_test.go")
+        place = meta["demo"].get("place_at", "pkg/cdi/")
+        race = " -race" if "-race" in run else ""
+        if place.strip().startswith("schema/"):
+            demo, tcwd, tpkg = os.path.join(wt, "schema/zz_seeded_demo_test.go"), os.path.join(wt, "schema"), "."
+        else:
+            demo, tcwd, tpkg = os.path.join(wt, "pkg/cdi/zz_seeded_demo_test.go"), wt, "./pkg/cdi/"
         shutil.copy(os.path.join(src, "demo_test.go"), demo)
-        rc, out = sh("go test -vet=off -count=1 -run '%s' ./pkg/cdi/" % test, cwd=wt)
+        rc, out = sh("go test%s -vet=off -count=1 -run '%s' %s" % (race, test, tpkg), cwd=tcwd)
         rec["demo_passes_without_change"] = rc == 0
         os.unlink(demo)
         rc, out = sh(["git", "apply", os.path.join(src, "patch.diff")], cwd=wt)
@@ -39,7 +44,7 @@ def verify(src, mid):
                 rec["suite_failure"] = out[-1500:]
         rec["builds_and_suite_passes_with_change"] = ok
         shutil.copy(os.path.join(src, "demo_test.go"), demo)
-        rc, out = sh("go test -vet=off -count=1 -run '%s' ./pkg/cdi/" % test, cwd=wt)
+        rc, out = sh("go test%s -vet=off -count=1 -run '%s' %s" % (race, test, tpkg), cwd=tcwd)
         rec["demo_fails_with_change"] = rc != 0
         rec["demo_output_tail"] = out[-600:]
     finally:
